@@ -98,6 +98,21 @@ CHECKS.update({
         design="4/C01"),
 })
 
+CHECKS.update({
+    "C07": dict(
+        level="model_checking",
+        technique="exhaustive enumeration of chart types x data shapes and of replace_data histories over representative shapes, executed on the real chart API; strict chart-schema validation by libxml2 (error-set rule), read-API comparison with a reference model of the supplied data, c14n preservation check",
+        text="All 29 writable chart types x category shapes (1..300 leaves, six label kinds, every uniform-depth category forest up to 4 leaves/depth 3 (thorough 6/4)), series counts 0..27 (thorough 0..50), values with holes, XY/bubble length patterns, number formats; every replace_data sequence of length <= 2 (thorough 3) over six representative shapes from each type and from 46 corpus charts: 15k (thorough 150k) paths, each checked transition compared with the model (names, values, categories per level, unique idx/order, surviving formatting).",
+        note="Trusted: libxml2 + schemas in /repo/spec, mc/props/c07_shapes.py reference model, bare lxml reads of the chart part. Known findings: negative axis ids / radar c:smooth in the writer templates, pie writes one series, zero-series plots.",
+        design="4/C07"),
+    "C08": dict(
+        level="exploration",
+        technique="bounded-exhaustive enumeration of chart data (column-boundary series counts, all 16384 column references, all XY/bubble length triples) executed on the real workbook writer; every c:f range resolved in the embedded .xlsx by an independent SpreadsheetML reader and compared cell by cell with the cached points",
+        text="C07's data shapes plus series counts 25..27 (thorough 701..703) x category depth 1..4, _column_reference for all 16384 columns against an independent base-26 conversion, XY/bubble series lengths {0,1,2,5}^3, formula-like / URL-like / numeric-looking labels, datetime labels, replace_data histories (workbook located in the SAVED package), a date1904 chart: 24k (thorough 118k) evaluations, ~470k cached points compared with their cells.",
+        note="Trusted: mc/oracles/xlsx_ref.py (zipfile + bare lxml; independent A1 parser). Numbers compared with relative tolerance 1e-14 (XlsxWriter prints 16 significant digits).",
+        design="4/C08"),
+})
+
 NOT_BUILT = "check not completed yet (machinery under construction; see DESIGN.md section 8)"
 
 def main():
